@@ -385,7 +385,8 @@ Inductive hop :=
 | UpdVar (pat : path) (op var : string) (v : val)
 | UpdEdge (s t : string) (upd : vars)
 | UpdTemplate (inpl : bool) (adds : list (string * path)) (es : list edge)   (* c = c.update_template(...) / in_place *)
-| Observe (nv : list nv_entry) (ev : list ev_entry).                        (* apply(node_values=nv, edge_values=ev) *)
+| Observe (nv : list nv_entry) (ev : list ev_entry)                         (* apply(node_values=nv, edge_values=ev) *)
+| ObserveBase (k : nat).            (* compile the k-th template left behind by `c = c.update_template(...)` (newest first) *)
 Inductive hout := ODone | ORaised | OObs (nodes : list (okey * val)) (edges : list edge).
 
 (* apply(edge_values={(source, target): attrs}): every edge between the two variables gets the passed attributes *)
@@ -412,41 +413,50 @@ Definition tobserve (d : nat) (t : atree) (nv : list nv_entry) (ev : list ev_ent
   | _, _ => ORaised
   end.
 
-(* Impl state: the store and the template object the user's variable holds (update_template without in_place returns a
-   new object).  Since fix D75 update_template(edges=.., in_place=True) rebuilds `_edge_map` from the new edge list
+(* Impl state: the store, the template object the user's variable holds (update_template without in_place returns a
+   new object) and the base templates that were left behind: they can still be compiled (ObserveBase) and must be unchanged.  Since fix D75 update_template(edges=.., in_place=True) rebuilds `_edge_map` from the new edge list
    (`self._edge_map = {}; self.edges = self._load_edge_templates(edges)`), so get_edge always finds the first own edge. *)
-Definition istate := (heap * id)%type.
+Definition istate := (heap * id * list id)%type.    (* store, current template, the base templates left behind (newest first) *)
+Definition sstate := (atree * list atree)%type.
 
 Definition stepI (d : nat) (st : istate) (o : hop) : istate * hout :=
-  let '(h, r) := st in
+  let '(h, r, olds) := st in
   match o with
-  | UpdVar pat op var v => match update_var d r h pat op var v with Some h' => ((h', r), ODone) | None => (st, ORaised) end
-  | UpdEdge s t upd => match update_edge r h s t upd with Some h' => ((h', r), ODone) | None => (st, ORaised) end
+  | UpdVar pat op var v => match update_var d r h pat op var v with Some h' => ((h', r, olds), ODone) | None => (st, ORaised) end
+  | UpdEdge s t upd => match update_edge r h s t upd with Some h' => ((h', r, olds), ODone) | None => (st, ORaised) end
   | UpdTemplate inpl adds es =>
     match update_template d r h inpl adds es with
-    | Some (h', r') => ((h', r'), ODone)
+    | Some (h', r') => ((h', r', if inpl then olds else r :: olds), ODone)
     | None => (st, ORaised)
     end
   | Observe nv ev => (st, observe d r h nv ev)
+  | ObserveBase k => (st, match nth_error olds k with Some b => observe d b h [] [] | None => ORaised end)
   end.
-Definition stepS (d : nat) (t : atree) (o : hop) : atree * hout :=
+Definition stepS (d : nat) (st : sstate) (o : hop) : sstate * hout :=
+  let '(t, olds) := st in
   match o with
-  | UpdVar pat op var v => match tupdate_var t pat op var v with Some t' => (t', ODone) | None => (t, ORaised) end
-  | UpdEdge s tg upd => match tupdate_edge t s tg upd with Some t' => (t', ODone) | None => (t, ORaised) end
-  | UpdTemplate _ adds es => match tupdate_template t adds es with Some t' => (t', ODone) | None => (t, ORaised) end
-  | Observe nv ev => (t, tobserve d t nv ev)
+  | UpdVar pat op var v => match tupdate_var t pat op var v with Some t' => ((t', olds), ODone) | None => (st, ORaised) end
+  | UpdEdge s tg upd => match tupdate_edge t s tg upd with Some t' => ((t', olds), ODone) | None => (st, ORaised) end
+  | UpdTemplate inpl adds es =>
+    match tupdate_template t adds es with
+    | Some t' => ((t', if inpl then olds else t :: olds), ODone)
+    | None => (st, ORaised)
+    end
+  | Observe nv ev => (st, tobserve d t nv ev)
+  | ObserveBase k => (st, match nth_error olds k with Some b => tobserve d b [] [] | None => ORaised end)
   end.
 Fixpoint runI (d : nat) (st : istate) (ops : list hop) : istate * list hout :=
   match ops with
   | [] => (st, [])
   | o :: rest => let '(s1, out) := stepI d st o in let '(s2, outs) := runI d s1 rest in (s2, out :: outs)
   end.
-Fixpoint runS (d : nat) (t : atree) (ops : list hop) : atree * list hout :=
+Fixpoint runS' (d : nat) (st : sstate) (ops : list hop) : sstate * list hout :=
   match ops with
-  | [] => (t, [])
-  | o :: rest => let '(t1, out) := stepS d t o in let '(t2, outs) := runS d t1 rest in (t2, out :: outs)
+  | [] => (st, [])
+  | o :: rest => let '(s1, out) := stepS d st o in let '(s2, outs) := runS' d s1 rest in (s2, out :: outs)
   end.
-Definition init_state (h : heap) (r : id) : istate := (h, r).
+Definition runS (d : nat) (t : atree) (ops : list hop) : sstate * list hout := runS' d (t, []) ops.
+Definition init_state (h : heap) (r : id) : istate := (h, r, []).
 
 (* ---------------------------------------------------------------- comparison glue for the correspondence run *)
 Definition val_eqb (a b : val) : bool :=
